@@ -485,7 +485,7 @@ def c08_case(draw, tier):
 # coverage-guided campaign (pkv/fuzz.py): same strategy and oracle driven by
 # libFuzzer through Hypothesis' fuzz_one_input; pokerkit instrumented
 FUZZ = dict(
-    quick=dict(procs=8, runs=120, wall=60),
+    quick=dict(procs=8, runs=150, wall=60, pool=48),
     thorough=dict(procs=16, runs=6000, wall=900),
 )
 
